@@ -4,7 +4,7 @@ import json, os
 ROOT = os.path.dirname(os.path.dirname(os.path.abspath(__file__)))
 
 MC = "model_checking"; TV = "translation_validation"; EX = "exploration"
-W_NOTE = 'Mode W bounds: catalogue of ~49 type expressions (+40 seeded random in the thorough tier), dynamic axes 0..3, 4 value families, histories <= 3/4 steps -- all ENUMERATED; placement (capacity, free-list chunk bounds with N<=1 quick / <=2 thorough, explicit offset, grow step, growth amounts; prior contents = poison) decided by the SOLVER for all values < 2^62. Quick tier assumes a roomy first chunk for multi-allocation scenarios (running out of space is explored by the growth placements). Stubs S1 (Int64 codec for symbolic words), S2 (is_integer), S9 (write-log storage model, validated each run against the real BufferNumpy/BufferByteArray by running every scenario concretely). Mode P (C03, C05, C06, C10, C11 only): the real planners/writers/readers (Array._inspect_args/_to_buffer/_from_buffer/_get_offset/__setitem__/bound_check, MetaStruct with abstract children of symbolic size, String._inspect_args/_to_buffer and the in-place string assignment path) run on SYMBOLIC dimensions, indices, child sizes, string byte/character counts and capacities and are compared with the documented layout for ALL values < 2^62 (axis count <= 3, struct patterns <= 4 fields quick / 5 thorough enumerated).'
+W_NOTE = 'Mode W bounds: catalogue of ~49 type expressions (+40 seeded random in the thorough tier), dynamic axes 0..3, 4 value families, histories <= 3/4 steps -- all ENUMERATED; placement (capacity, free-list chunk bounds with N<=1 quick / <=2 thorough, explicit offset, grow step, growth amounts; prior contents = poison) decided by the SOLVER for all values < 2^62. Quick tier assumes a roomy first chunk for multi-allocation scenarios (running out of space is explored by the growth placements). Stubs S1 (Int64 codec for symbolic words), S2 (is_integer), S9 (write-log storage model, validated each run against the real BufferNumpy/BufferByteArray by running every scenario concretely). Mode P (C03, C05, C06, C10, C11 only): the real planners/writers/readers (Array._inspect_args/_to_buffer/_from_buffer/_get_offset/__setitem__/bound_check, MetaStruct with abstract children of symbolic size, String._inspect_args/_to_buffer and the in-place string assignment path, arrays of abstract dynamic items of symbolic size, Ref/UnionRef codecs for every stored word) run on SYMBOLIC dimensions, indices, child sizes, string byte/character counts and capacities and are compared with the documented layout for ALL values < 2^62 (axis count <= 3, struct patterns <= 4 fields quick / 5 thorough enumerated).'
 W_TECH = "symbolic execution of the real Python constructors/accessors on z3 Int proxies over a write-log buffer model with symbolic placement; z3 unsat per obligation; concrete replay on real CPU buffers"
 CHECKS = {
  "C02": (TV, "5/C02",
